@@ -99,6 +99,20 @@ CHECKS = {
         "iff some value is missing (fixed layout there). Outside: gaps inside sequences, comments between '=' and "
         "the next statement, longer labels.",
    ref='5 (C08)', technique='symbolic execution (symx) of OmniParser repair hooks with symbolic layout and removal pattern; z3'),
+ 'C09': dict(
+   text="Bounded symbolic execution of what symbolic execution can reach of this property. (a) loads(label + END + "
+        "symbolic separator + 1-2 (quick) / 1-4 UNCONSTRAINED symbolic characters over the whole Unicode range) "
+        "through a counting proxy around the real lexer passed as lexer_fn, five loaders: the module equals the bare "
+        "label's, the last token pulled is END, and for the strict parsers a non-interference query per path "
+        "(PC(t) and not PC(t') unsat for fresh t') shows no decision depended on the tail - which carries over to "
+        "every longer tail because the lexer reads left to right and is not resumed after END; for the default "
+        "loader (whose document-level dash substitution legitimately reads the tail) equality and the pull count. "
+        "(b) decode_by_char / get_text_from / load on stub binary and text streams whose bytes after the label are "
+        "symbolic (0-255): exactly the longest all-ASCII prefix, same module as the str entry. (c) dump to stub text "
+        "/ binary streams writes exactly dumps(...) / its UTF-8 encoding once and returns what write returns, "
+        "symbolic string leaf. NOT reachable and not claimed: real paths, PathLike, file: URLs, OS buffering (C/OS "
+        "boundary) - left to tests/test_init.py.",
+   ref='5 (C09), 6', technique='symbolic execution (symx) with unconstrained tail + per-path non-interference SMT query; stub streams with symbolic bytes; z3'),
  'C10': dict(
    text="Inductive step decided by symbolic execution of the real container code: pre-state = the container built "
         "from an arbitrary list of 0-3 (quick) / 0-4 (thorough) pairs - every key equality pattern (restricted-growth "
